@@ -280,6 +280,7 @@ func c16Items() []c16Item {
 		{b: fr(0x0204, hex.EncodeToString(devDIB(0x1107))+"04020201"+"08fe0102030405aa"), wellUDP: true, wellTCP: true, name: "DescriptionRes-with-further-DIB"},
 		{b: fr(0x0204, hex.EncodeToString(devDIB(0x1108))+"04020201"+"0203"+"0205"), canon: fr(0x0204, hex.EncodeToString(devDIB(0x1108))+"04020201"), wellUDP: true, wellTCP: true, name: "DescriptionRes-with-empty-DIBs"},
 		{b: pack(&knxnet.RoutingInd{Payload: &cemi.LRawInd{LRaw: cemi.LRaw{9, 8, 7, 6, 5, 4, 3, 2, 1}}}), wellUDP: true, wellTCP: true, name: "RoutingInd-raw"},
+		{b: pack(&knxnet.TunnelReq{Channel: 2, SeqNumber: 7, Payload: &cemi.LBusmonInd{0x03, 0x01, 0x01, 0xBC, 0x11, 0x01, 0x0A, 0x03, 0xE1, 0x00, 0x81}}), wellUDP: true, wellTCP: true, name: "TunnelReq-bus-monitor-indication"},
 		{b: pack(&knxnet.TunnelReq{Channel: 2, SeqNumber: 5, Payload: c12FullFrame(1, c12Shape{254, 0})}), wellUDP: true, wellTCP: true, name: "TunnelReq-254-octet-payload"},
 		{b: pack(&knxnet.TunnelReq{Channel: 2, SeqNumber: 6, Payload: c12FullFrame(2, c12Shape{254, 255})}), wellUDP: true, wellTCP: true, name: "TunnelReq-largest-frame-529-octets"},
 		{b: fr(0x0999, "0102030405060708090a"), wellUDP: true, wellTCP: true, name: "service-type-the-library-does-not-decode"},
@@ -818,6 +819,8 @@ func init() {
 	reg("both", "C16-udp-close-with-abandoned-consumer", "C16", 2, 2, c16CloseAbandoned(false), true)
 	reg("both", "C16-tcp-close-with-abandoned-consumer", "C16", 2, 2, c16CloseAbandoned(true), true)
 	reg("both", "C16-connreq-endpoint", "C16", 0, -1, c16ConnReq(), false)
+	reg("both", "C16-udp-stream-of-50-datagrams-back-to-back", "C16", 0, -1, c16UDPStream(50), true)
+	reg("both", "C16-udp-stream-of-12-datagrams-back-to-back-P1", "C16", 1, 1, c16UDPStream(12), true)
 	register("both", &h.Scenario{Name: "C03-fullstack-real-socket-send-vs-server-acks", Prop: "C03", P: 2, F: 0, D: 2, Run: c03FullStack(), Check: c03FullStackOracle})
 	// C15's datagram clause ("the total-length field equals the length of the datagram handed to the
 	// network") under concurrent senders shares the sender scenarios
@@ -839,6 +842,38 @@ func init() {
 	// "the outcome is a function of the input bytes alone" for bytes that reach the decoder through
 	// the stream receiver: the same frames, however the stream is cut into segments
 	reg("both", "C01-tcp-receiver-2cuts-upto2frames", "C01", 0, -1, c16TCPSeg(0, 2), false)
+}
+
+// ---- a back-to-back stream of datagrams ----
+
+// c16UDPStream: "streams of 1..50 frames": n datagrams arrive back to back on a UDP tunnel socket
+// while the consumer of Inbound is busy elsewhere (or not); the socket's receive queue (the virtual
+// kernel's, with Linux accounting and the default size unless the library configures another one)
+// is the only buffer between peer and Inbound. Every frame must surface, once, in arrival order.
+func c16UDPStream(n int) func() {
+	return func() {
+		fs := c16Frames()
+		var want []string
+		sock, ep := dialUDP()
+		ep.OnDrop = func(d []byte) { mc.Log(Note("the socket's receive queue had no room for a datagram of " + fmt.Sprint(len(d)) + " octets")) }
+		done := mc.NewChan[int](1, "c16.done")
+		stall := []mc.Duration{0, 2500 * ms}[mc.Choose(2, mc.Free)]
+		c16ConsumerStall(sock.Inbound(), done, stall)
+		for i := 0; i < n; i++ {
+			f := fs[i%len(fs)]
+			if i%len(fs) == 2 { // make every tunnelling request distinguishable
+				f = pack(&knxnet.TunnelReq{Channel: 1, SeqNumber: uint8(i), Payload: ldata(2)})
+			}
+			want = append(want, hex.EncodeToString(f))
+			ep.Inject(f, nil)
+		}
+		mc.Log(Want{Frames: want, MayEndAt: -1, MustClose: true})
+		mc.Sleep(stall + 2*ms)
+		sock.Close()
+		done.Recv()
+		mc.Sleep(1 * ms)
+		censusNote()
+	}
 }
 
 // ---- one Send per service type ----
